@@ -503,6 +503,10 @@ func c05(c *Ctx) {
 					}
 					i, err, _ = x86.VerifBuild(opcIndexOf[ci.Opcode], ci.Suffixes, ops)
 				}
+				if err == nil && i != nil && (i.Opcode != ci.Opcode || strings.Join(i.Suffixes, ".") != strings.Join(ci.Suffixes, ".")) {
+					c.Out.Plan.GoViolations = append(c.Out.Plan.GoViolations, GoViolation{Key: "encodes-differently:constructor-built-other-opcode-or-suffixes:" + name,
+						Desc: fmt.Sprintf("constructor %s%v built `%s`: not the opcode/suffixes it is named after (%s.%s)", name, opsText(ops), instrLine(i), ci.Opcode, strings.Join(ci.Suffixes, ".")), Replay: map[string]any{"ctor": name, "operands": opsText(ops)}})
+				}
 				add(i, err)
 			}
 		}
